@@ -903,7 +903,50 @@ pub fn gen_two_publishers_world(rng: &mut Rng) -> CmdWorld {
     CmdWorld { graph, config, audits, remote }
 }
 
+/// Template worlds around a peer's wildcard-audit list: one crates.io crate certified only
+/// through imported wildcard audits of its publisher; the peer lists two or three entries in
+/// random order, some carrying only a criterion of the peer's own that the (empty) criteria-map
+/// leaves unmapped - such an entry is imported with no criteria and certifies nothing.
+pub fn gen_peer_wildcard_world(rng: &mut Rng) -> CmdWorld {
+    let v = |m: u64| VetVersion::parse(&format!("{m}.0.0")).unwrap();
+    let graph = gen::GGraph {
+        pkgs: vec![
+            gen::GPkg { name: "alfa".into(), version: v(1), source: 0, member: true, deps: vec![(1, 1)] },
+            gen::GPkg { name: "bravo".into(), version: v(2), source: 1, member: false, deps: vec![] },
+        ],
+        resolve_order: vec![0, 1],
+        member_order: vec![0],
+    };
+    let mut config = ConfigFile { cargo_vet: Default::default(), default_criteria: get_default_criteria(), imports: SortedMap::new(), policy: Default::default(), exemptions: SortedMap::new() };
+    let audits = AuditsFile { criteria: SortedMap::new(), wildcard_audits: SortedMap::new(), audits: SortedMap::new(), trusted: SortedMap::new() };
+    let mut pcrit: SortedMap<CriteriaName, CriteriaEntry> = SortedMap::new();
+    pcrit.insert("p-weak".into(), CriteriaEntry { description: Some("weak".into()), description_url: None, implies: vec![], aggregated_from: vec![] });
+    let mut peer = AuditsFile { criteria: pcrit, wildcard_audits: SortedMap::new(), audits: SortedMap::new(), trusted: SortedMap::new() };
+    let n = rng.range(2, 3);
+    let covering = rng.below(n);
+    let mut l = Vec::new();
+    for i in 0..n {
+        let own_only = i != covering && rng.chance(2, 3);
+        l.push(WildcardEntry {
+            who: vec![], criteria: vec![gen::sp(if own_only { "p-weak".to_owned() } else if i == covering || rng.chance(1, 2) { SAFE_TO_DEPLOY.to_owned() } else { SAFE_TO_RUN.to_owned() })],
+            user_id: 1, start: gen::sp(gen::date(0)), end: gen::sp(gen::date(200 + 10 * i as i64)), renew: None, notes: None, aggregated_from: vec![], is_fresh_import: false,
+        });
+    }
+    peer.wildcard_audits.insert("bravo".into(), l);
+    let mut remote = Remote::default();
+    remote.peers.insert(peer_url(0), peer);
+    config.imports.insert("peer0".into(), RemoteImport { url: vec![peer_url(0)], exclude: vec![], criteria_map: CriteriaMap::new() });
+    remote.registry.insert("bravo".into(), vec![RegVersion { version: semver::Version::new(2, 0, 0), user: Some(1), day: 10 }]);
+    CmdWorld { graph, config, audits, remote }
+}
+
 pub fn run_history(r: &mut Report, rng: &mut Rng, idx: u64) {
+    if idx % 8 == 3 && r.prop != "C06" {
+        let w = gen_peer_wildcard_world(rng);
+        let p = setup_project(&w);
+        exec_history(r, rng, idx, w, p, Some(vec![&[], &["--locked"], &["prune"], &["--locked"]]));
+        return;
+    }
     if (r.prop == "C13" || r.prop == "C09") && idx % 8 == 7 {
         let w = gen_two_publishers_world(rng);
         let p = setup_project(&w);
@@ -1068,7 +1111,12 @@ pub fn exec_history(r: &mut Report, rng: &mut Rng, idx: u64, mut w: CmdWorld, p:
         }
         // C12: which third-party packages the records on disk certify without exemptions
         let c12_recorded: Option<Vec<String>> = if prop == "C12" && cmd.is_empty() {
-            p.acquire(true).ok().map(|s| s.clone_for_suggest(false)).and_then(|lockedv| {
+            p.acquire(true).ok().map(|s| s.clone_for_suggest(false)).and_then(|mut lockedv| {
+                // (who published what is crates.io's to say: a publisher record an older run left
+                // in the lock counts as recorded only while the registry still says the same)
+                for (name, l) in lockedv.imports.publisher.iter_mut() {
+                    l.retain(|q| w.remote.registry.get(name).map(|reg| reg.iter().any(|rv| rv.version == q.version.semver && rv.user == Some(q.user_id) && gen::date(rv.day) == q.when)).unwrap_or(false));
+                }
                 let spec = core::Spec::new(&lockedv.audits.criteria)?;
                 let sg = core::SpecGraph::new(&p.md);
                 let demand = sg.demand(&lockedv.config.policy, &spec)?;
